@@ -354,6 +354,15 @@ package types
 //@   preimage covers fcid
 //@ func (*Block).ID
 //@   abstract
+//@ func blockMerkleRoot
+//@   abstract
+// The header of a block copies the parent, nonce and timestamp and commits to the content: the
+// Merkle root of payouts and transactions for a v1 block, the stored commitment for a v2 block.
+//@ func (*Block).Header
+//@   abstract
+//@   prop C13
+//@   ensures @fields result.ParentID == b.ParentID && result.Nonce == b.Nonce && result.Timestamp == b.Timestamp
+//@   ensures @commitment result.Commitment == (b.V2 == nil ? blockMerkleRoot(b.MinerPayouts, b.Transactions) : deref(b.V2).Commitment)
 
 // ------------------------------------------------------------------- encoding.go
 //@ func (V2Transaction).EncodeTo
